@@ -14,8 +14,9 @@ if not ok:
     sys.exit(1)
 out = os.path.join(HERE, "seeded", sid)
 os.makedirs(out, exist_ok=True)
-shutil.copy(d["patch"], os.path.join(out, "patch.diff"))
-shutil.copy(d["demo"], os.path.join(out, "demo.py"))
+for src, dst in ((d["patch"], os.path.join(out, "patch.diff")), (d["demo"], os.path.join(out, "demo.py"))):
+    if os.path.abspath(src) != os.path.abspath(dst):
+        shutil.copy(src, dst)
 meta_p = os.path.join(out, "meta.json")
 meta = json.load(open(meta_p)) if os.path.exists(meta_p) else {}
 meta.update({
